@@ -30,6 +30,10 @@ def run(tier):
     for i in range(600 if quick else 20000 * common.TS):
         steps, mods = feat_mod.module_history(r2.fork(str(i)))
         plist.append({"name": "history/%d" % i, "steps": steps, "mods": mods})
+    r3 = ck.rng.fork("aliases")
+    for i in range(250 if quick else 8000 * common.TS):
+        src, mods = feat_mod.native_alias_program(r3.fork(str(i)))
+        plist.append({"name": "alias/%d" % i, "steps": [("snip", src)], "mods": mods})
     loads_seen = {}
 
     from ..gen import feat_fiber as _ff
